@@ -38,7 +38,7 @@ ASSUMPTIONS = [
 ]
 
 FINDING_EINTR = "C15-eintr-deadline"
-FUEL = 600                      # model loop bound = harness bound on sleeps per case
+FUEL = 200                      # model loop bound = harness bound on sleeps per wait call
 
 # ------------------------------------------------------------------------------ translator
 
@@ -217,6 +217,8 @@ class World:
         self.procs = {}
         self.reset_logs()
 
+    max_sleeps = FUEL
+
     def reset_logs(self):
         self.sleeps = []
         self.calls = []           # (pid, timeout) of every Process.wait entered
@@ -238,7 +240,7 @@ class World:
 
     def sleep(self, x):
         self.oscalls += 1
-        if len(self.sleeps) >= FUEL:
+        if len(self.sleeps) >= self.max_sleeps:
             raise Diverge("fuel")
         self.sleeps.append(to_frac(x))
         self.now += to_frac(x)
@@ -364,6 +366,7 @@ class Impl:
         w = self.world
         w.now = Fr(start)
         w.procs = {}
+        w.max_sleeps = FUEL
         w.reset_logs()
 
     # -- observables
@@ -466,6 +469,7 @@ class Impl:
                 except BaseException:  # noqa: BLE001
                     pass
         w.reset_logs()
+        w.max_sleeps = FUEL * 8          # a whole wait_procs call may sleep more than one wait call
         cblog = []
         cb = (lambda pr: cblog.append(pr.pid)) if case["hasCb"] else None
         tmo = None if case["timeout"] is None else Fr(*case["timeout"])
